@@ -349,6 +349,158 @@ example :
     vget (convert fixed (convert fixed child.1 child.2).1 baseString.2).2.2 1 = none ∧
     vget (convert fixed child.1 child.2).2.2 1 = some (.num 5) := by decide
 
+/-! ### the registry: Describe / Meta checks
+
+  `annotatedInternals` runs the OnAttach of Describe/Meta checks against the live schema: the conversion writes the
+  schema's GlobalRegistry entry.  What holds for the code as it stands: the write touches only the converted (visited)
+  schema's own entry, and it is idempotent — after the first conversion the registry is a fixed point, so the second
+  and every later conversion changes nothing and reads the same entry (same document).  What does not hold: the full
+  statement "a conversion leaves the registry as it was" (`c12_reg_full`, refuted by `conv_registers_meta_check`). -/
+
+def combSet (a b : MetaSet) : MetaSet :=
+  ⟨b.id.orElse (fun _ => a.id), b.title.orElse (fun _ => a.title), b.descr.orElse (fun _ => a.descr),
+   b.examples.orElse (fun _ => a.examples)⟩
+
+def noSet : MetaSet := ⟨.none, .none, .none, .none⟩
+
+theorem getD_orElse {α} (a b : Option α) (x : α) : (b.orElse (fun _ => a)).getD x = b.getD (a.getD x) := by
+  cases b <;> simp [Option.orElse]
+
+theorem apply_apply (e : GMeta) (a b : MetaSet) : (e.apply a).apply b = e.apply (combSet a b) := by
+  simp [GMeta.apply, combSet, getD_orElse]
+
+theorem apply_none (e : GMeta) : e.apply noSet = e := by
+  simp [GMeta.apply, noSet]
+
+theorem getD_getD {α} (o : Option α) (x : α) : o.getD (o.getD x) = o.getD x := by cases o <;> rfl
+
+/-- assigning the same fields twice is assigning them once -/
+theorem apply_idem (e : GMeta) (s : MetaSet) : (e.apply s).apply s = e.apply s := by
+  simp [GMeta.apply, getD_getD]
+
+/-- all callbacks of a check list amount to one assignment (the last writer of each field wins) -/
+def setsOf (cks : List MetaCheck) : MetaSet := cks.foldl (fun a c => combSet a c.sets) noSet
+
+theorem foldl_attach_some (cks : List MetaCheck) : ∀ (e : GMeta) (a : MetaSet),
+    cks.foldl attachMeta (some (e.apply a)) = some (e.apply (cks.foldl (fun a c => combSet a c.sets) a)) := by
+  induction cks with
+  | nil => intro e a; rfl
+  | cons c cs ih =>
+    intro e a
+    simp only [List.foldl_cons, attachMeta, Option.getD_some, apply_apply]
+    exact ih e (combSet a c.sets)
+
+/-- closed form of `annotateEntry`: nothing without registry-writing checks; otherwise an entry exists afterwards and
+    holds the previous fields overwritten by the last writer of each. -/
+theorem annotateEntry_eq (pre : Option GMeta) (cks : List MetaCheck) :
+    annotateEntry pre cks = if cks = [] then pre else some ((pre.getD GMeta.empty).apply (setsOf cks)) := by
+  cases cks with
+  | nil => simp [annotateEntry]
+  | cons c cs =>
+    simp only [annotateEntry, List.foldl_cons, attachMeta, reduceCtorEq, ↓reduceIte, setsOf]
+    have h := foldl_attach_some cs (pre.getD GMeta.empty) c.sets
+    have hc : combSet noSet c.sets = c.sets := by
+      cases c.sets with
+      | mk a b c d => cases a <;> cases b <;> cases c <;> cases d <;> rfl
+    rw [hc]
+    exact h
+
+/-- **c12_annotate_idem**: running the registry-writing callbacks of a schema a second time changes nothing. -/
+theorem c12_annotate_idem (pre : Option GMeta) (cks : List MetaCheck) :
+    annotateEntry (annotateEntry pre cks) cks = annotateEntry pre cks := by
+  rw [annotateEntry_eq pre cks]
+  by_cases h : cks = []
+  · simp [h, annotateEntry]
+  · rw [if_neg h, annotateEntry_eq, if_neg h]
+    simp [apply_idem]
+
+/-- **c12_reg_frame**: a conversion writes no other schema's registry entry. -/
+theorem c12_reg_frame (mc : Nat → Option MetaCheck) (σ : Store) (r : MReg) (s : Schema) (l : Loc) (h : l ≠ s.self) :
+    convertReg mc σ r s l = r l := by
+  simp [convertReg, h]
+
+/-- **c12_reg_twice**: the registry after the first conversion is a fixed point of converting the same schema
+    (the repaired converter does not touch the store — `c12_pure` — so the checks read are the same). -/
+theorem c12_reg_twice (mc : Nat → Option MetaCheck) (cfg : Cfg) (h : cfg.convScratch = true) (σ : Store) (r : MReg)
+    (s : Schema) :
+    convertReg mc (convert cfg σ s).1 (convertReg mc σ r s) s = convertReg mc σ r s := by
+  rw [(c12_pure cfg h σ s).1]
+  funext l
+  by_cases hl : l = s.self
+  · simp [convertReg, hl, c12_annotate_idem]
+  · simp [convertReg, hl]
+
+/-- conversions of other schemas in between do not disturb the fixed point: after `s` has been converted once, any
+    sequence of conversions of schemas with other identities followed by `s` again leaves `s`'s entry as it was. -/
+theorem c12_reg_after_others (mc : Nat → Option MetaCheck) (σ : Store) (r : MReg) (s : Schema) (others : List Schema)
+    (hne : ∀ t ∈ others, t.self ≠ s.self) :
+    convertReg mc σ (others.foldl (convertReg mc σ) (convertReg mc σ r s)) s s.self = convertReg mc σ r s s.self := by
+  have hk : ∀ (os : List Schema) (r' : MReg), (∀ t ∈ os, t.self ≠ s.self) →
+      (os.foldl (convertReg mc σ) r') s.self = r' s.self := by
+    intro os
+    induction os with
+    | nil => intro r' _; rfl
+    | cons t ts ih =>
+      intro r' hn
+      simp only [List.foldl_cons]
+      rw [ih _ (fun u hu => hn u (List.mem_cons_of_mem _ hu))]
+      exact c12_reg_frame mc σ r' t s.self (fun e => hn t (List.mem_cons_self ..) e.symm)
+  simp only [convertReg, ↓reduceIte]
+  rw [hk others _ hne]
+  simp [convertReg, c12_annotate_idem]
+
+/-- The full statement for the registry: a conversion leaves every entry as it was. -/
+def c12_reg_full : Prop :=
+  ∀ (mc : Nat → Option MetaCheck) (σ : Store) (r : MReg) (s : Schema), convertReg mc σ r s = r
+
+/-- the region in which it holds: the entry already absorbs the schema's registry-writing checks -/
+def Absorbed (mc : Nat → Option MetaCheck) (σ : Store) (r : MReg) (s : Schema) : Prop :=
+  annotateEntry (r s.self) ((readArr σ.heap s.checks).filterMap mc) = r s.self
+
+/-- **c12_reg_partial**: with the entry absorbed (no Describe/Meta checks, or converted before) the conversion leaves
+    the registry untouched. -/
+theorem c12_reg_partial (mc : Nat → Option MetaCheck) (σ : Store) (r : MReg) (s : Schema)
+    (h : Absorbed mc σ r s) : convertReg mc σ r s = r := by
+  funext l
+  by_cases hl : l = s.self
+  · subst hl; simp only [convertReg, ↓reduceIte]; exact h
+  · simp [convertReg, hl]
+
+/-- after one conversion the entry is absorbed -/
+theorem absorbed_after_conversion (mc : Nat → Option MetaCheck) (σ : Store) (r : MReg) (s : Schema) :
+    Absorbed mc σ (convertReg mc σ r s) s := by
+  simp [Absorbed, convertReg, c12_annotate_idem]
+
+/-- a schema without registry-writing checks is absorbed from the start -/
+example (σ : Store) (r : MReg) (s : Schema) : Absorbed (fun _ => none) σ r s := by
+  have : (readArr σ.heap s.checks).filterMap (fun _ => (none : Option MetaCheck)) = [] := by
+    induction readArr σ.heap s.checks with
+    | nil => rfl
+    | cons _ _ ih => simp
+  simp [Absorbed, annotateEntry, this]
+
+/-- `Tuple(...).Check(gozod.Meta(GlobalMeta{Title: "T"}))`: one check (id 15), no registry entry yet. -/
+def tupleWithMetaCheck : Store × Schema := applyOp fixed σ0 dummy (.rebuild 1 0 [15] 1 true false false)
+def metaTable : Nat → Option MetaCheck := fun c => if c = 15 then some (.gmeta ⟨0, 1, 0, [7, 8]⟩) else none
+
+/-- **Witness**: the first conversion of a schema carrying a Meta check creates its registry entry —
+    `GlobalRegistry.Get(schema)` answers differently before and after `ToJSONSchema(schema)`. -/
+theorem conv_registers_meta_check :
+    convertReg metaTable tupleWithMetaCheck.1 (fun _ => none) tupleWithMetaCheck.2 tupleWithMetaCheck.2.self
+      = some ⟨0, 1, 0, [7, 8]⟩ ∧
+    (fun _ => none : MReg) tupleWithMetaCheck.2.self = none := by decide
+
+theorem c12_reg_full_false : ¬ c12_reg_full := by
+  intro h
+  have := congrFun (h metaTable tupleWithMetaCheck.1 (fun _ => none) tupleWithMetaCheck.2) tupleWithMetaCheck.2.self
+  rw [conv_registers_meta_check.1] at this
+  exact absurd this (by decide)
+
+/-- What idempotence excludes: a callback that MERGES the examples instead of assigning them (appending those it
+    cannot find; slices and maps can never be found) grows the entry on every run. -/
+theorem merging_examples_not_idempotent :
+    mergeExamples 5 (mergeExamples 5 [] [1, 7]) [1, 7] ≠ mergeExamples 5 [] [1, 7] := by decide
+
 /-- non-vacuity of `c12_hist`: a history mixing the three kinds of steps satisfies its hypotheses -/
 example : hopsOK [.chain 1 (.derive 0 [41] none), .conv 2, .conv 1, .parse 1, .chain 1 (.derive 0 [18] none), .conv 3, .conv 1] := by
   intro o ho; simp at ho
